@@ -446,6 +446,13 @@ func verifStats(stk *verifStack) []any {
 		tok += ts.SuccessfulRequests
 		tfail += ts.FailedRequests
 	}
+	// per-model scope: summed over every model the collector knows
+	var mt, mok, mfail int64
+	for _, ms := range col.GetModelStats() {
+		mt += ms.TotalRequests
+		mok += ms.SuccessfulRequests
+		mfail += ms.FailedRequests
+	}
 	return []any{"ep", eps, "proxy", map[string]any{"total": ps.TotalRequests, "ok": ps.SuccessfulRequests, "fail": ps.FailedRequests},
-		"tr", map[string]any{"total": tt, "ok": tok, "fail": tfail}}
+		"tr", map[string]any{"total": tt, "ok": tok, "fail": tfail}, "model", map[string]any{"total": mt, "ok": mok, "fail": mfail}}
 }
